@@ -91,9 +91,13 @@ class ValMap:
             return head + bytes([65 + i % 26]) * max(0, n - len(head))
         if c == 3:
             head = 'T%06d:' % v
-            return head + chr(97 + i % 26) * max(0, n - len(head))
+            fill = chr(97 + i % 26) if i % 2 == 0 else chr(0xe9 + i % 5)     # odd ids: non-ASCII (2 bytes per char)
+            return head + fill * max(0, n - len(head))
         if c == 4:
             return ['L', v] + [i % 7] * n
+        if c == 5:
+            # a text that cannot be stored: long enough for a file, with a lone surrogate in the middle
+            return 'T%06d:' % v + 'x' * (n // 2) + '\ud800' + 'y' * (n // 2)
         raise MachineryError('bad value id %r' % (v,))
 
     def size(self, v):
@@ -105,7 +109,7 @@ class ValMap:
             n = len(py)
             return n if n >= self.min_file_size else 0
         if type(py) is str:
-            return len(py.encode('utf-8')) if len(py) >= self.min_file_size else 0
+            return len(py.encode('utf-8', 'surrogatepass')) if len(py) >= self.min_file_size else 0
         n = len(pickle.dumps(py, protocol=self.protocol))
         return n if n >= self.min_file_size else 0
 
@@ -132,7 +136,13 @@ class ValMap:
         return -1               # partial / mixed / foreign value
 
 
+class Unbindable:
+    """A tag SQLite cannot bind."""
+
+
 def tag_py(g):
+    if g < 0:
+        return Unbindable()
     return None if g == 0 else 'tag%d' % g
 
 
